@@ -586,7 +586,7 @@ def run_case(case):
 
 def plan(tier, seed):
     all_cases = list(cases())
-    n = 1500 if tier == 'quick' else 40000
+    n = 1500 if tier == 'quick' else 20000
     return [dict(cases=all_cases[i::8]) for i in range(8)] + \
         [dict(gen=True, seed=seed * 1000 + i, n=n) for i in range(16)]
 
